@@ -70,7 +70,7 @@ pub fn c11(ctx: &mut Ctx, tier: &str, seed: u64) {
         let e = gen::e(win);
         let mut dom0 = if win { dom_win(tier, seed) } else { dom_unix(tier, seed) };
         dom0.extend(gen::norm_extra(win, tier, seed));
-        let dom: Vec<Vec<u8>> = dedup_keep_order(dom0).into_iter().filter(|s| well_formed(win, s)).collect();
+        let dom: Vec<Vec<u8>> = dedup_keep_order(dom0).into_iter().filter(|s| well_formed_wide(win, s)).collect();
         for s in &dom {
             let rp = format!("norm {} {}", e, hex(s));
             at(rp.clone());
@@ -188,7 +188,7 @@ pub fn c11(ctx: &mut Ctx, tier: &str, seed: u64) {
                 let mut dom0 = if win { dom_win_small("quick", seed) } else { dom_unix_small("quick", seed) };
                 dom0.truncate(400);
                 dom0.extend([&b"\\foo\\bar"[..], b"/foo/bar", b"foo", b"C:foo", b"D:foo", b"D:\\foo", b"..", b"."].iter().map(|x| x.to_vec()));
-                for s in dedup_keep_order(dom0).iter().filter(|s| well_formed(win, s)) {
+                for s in dedup_keep_order(dom0).iter().filter(|s| well_formed_wide(win, s)) {
                     ctx.evals += 1;
                     let rp = format!("x.absolutize-in-cwd-named {} {} {}", hex(name), gen::e(win), hex(s));
                     let n = normalize_b(win, s);
